@@ -174,6 +174,9 @@ type Exec struct {
 	obs         []obsRec
 	arrayMode   bool
 	obligation  bool
+	fixedModel  Model
+	fixedBits   bitset
+	fixedEval   *Evaluator
 	busy        time.Duration
 	stopFlag    *int32
 
